@@ -24,7 +24,7 @@ ASSUMPTIONS = [
     "margin separation is checked with a tolerance of 8 ulps of the cycle length (float arithmetic of the window bounds)",
     "a window narrower than 1e6 ulps of the epoch is not required to contain a representable instant",
 ]
-REQUIRED_HOOKS = ["instants", "slot_postconditions", "system_instants"]
+REQUIRED_HOOKS = ["instants", "slot_postconditions", "system_instants", "churn_instants"]
 
 
 def WORKERS(tier):
@@ -47,6 +47,9 @@ def gen_cases(tier, seed):
             for mclass, m in margins:
                 cases.append({"kind": "pure", "n": n, "interval": iv, "margin": m, "mclass": mclass, "epochs": epochs,
                               "gridseed": rng.randrange(1 << 30)})
+    for k in range(60 if thorough else 12):
+        cases.append({"kind": "churn", "n": rng.randint(2, 9), "interval": rng.choice([1.0, 5.0, 7.3]), "mfrac": rng.choice([0.0, 0.2, 0.5]),
+                      "changes": 10, "seed": rng.randrange(1 << 30)})
     for backend in ("mem", "sqlite"):
         for n in ([1, 2, 3, 5, 9] if not thorough else [1, 2, 3, 4, 5, 7, 9, 12]):
             for mclass, mfrac in (("zero", 0.0), ("default", 0.2), ("over", 1.5)):
@@ -123,6 +126,55 @@ def run_pure(case, V, hooks, distinct):
     return evals
 
 
+def run_churn(case, V, hooks, distinct):
+    """Membership changes inside one process: runners leave and join, positions shift; the same questions are asked again."""
+    from pynenc.orchestrator.atomic_service import ActiveRunnerInfo, can_run_atomic_service
+    rng = random.Random(case["seed"])
+    iv = case["interval"]
+    t00 = datetime(2024, 1, 1, tzinfo=UTC)
+    serial = 0
+    members = []
+    for _ in range(case["n"]):
+        members.append((f"m{serial}", serial)); serial += 1
+    evals = 0
+    history = []
+    for change in range(case["changes"] + 1):
+        n = len(members)
+        margin = case["mfrac"] * iv / n
+        runners = [ActiveRunnerInfo(rid, t00 + timedelta(seconds=ser), t00 + timedelta(seconds=10_000), True) for rid, ser in members]
+        ids = [r.runner_id for r in runners]
+        history.append(list(ids))
+        interval_s = iv * 60
+        slot_s = interval_s / n
+        base = 1_700_000_100.0 - (1_700_000_100.0 % interval_s) + interval_s
+        for i in range(n):
+            for frac, cls in ((0.0, "start"), (0.3, "inside"), (0.999, "late")):
+                t = base + (i + frac * (1 - case["mfrac"])) * slot_s
+                auth = [rid for rid in ids if can_run_atomic_service(rid, runners, t, iv, margin)]
+                hooks["instants"] += 1
+                hooks["churn_instants"] += 1
+                evals += 1
+                distinct.append(["churn", n, case["mfrac"], cls, change > 0])
+                wit = {"membership_history": history[-4:], "t": t, "authorised": auth, "interval_min": iv, "margin_min": margin}
+                if len(auth) > 1:
+                    V.append({"sig": "two-authorised:after-membership-change" if change else "two-authorised:margin-" + str(case["mfrac"]),
+                              "what": f"runners {auth} all authorised at t={t} after the runner list changed to {ids}", "witness": wit})
+                elif n > 1 and cls == "inside" and auth != [ids[i]]:
+                    V.append({"sig": "wrong-runner-authorised:after-membership-change" if change else "wrong-runner-authorised",
+                              "what": f"inside the window of position {i} ({ids[i]}) authorised = {auth}; list {ids}", "witness": wit})
+                elif n == 1 and not auth:
+                    V.append({"sig": "single-runner-refused", "what": "single active runner refused", "witness": wit})
+        # change membership: drop one (often the oldest), add one or two new ones, sometimes shrink
+        r = rng.random()
+        if len(members) > 1 and r < 0.8:
+            members.pop(0 if rng.random() < 0.6 else rng.randrange(len(members)))
+        if r < 0.6 or len(members) < 2:
+            members.append((f"m{serial}", serial)); serial += 1
+        if r < 0.15:
+            members.append((f"m{serial}", serial)); serial += 1
+    return evals
+
+
 def run_system(case, V, hooks, distinct):
     from vlib import vclock
     from vlib.apps import TmpDir, make_app, runner_ctx
@@ -181,6 +233,8 @@ def run_case(case):
     if case["kind"] == "pure":
         evals = run_pure(case, V, hooks, distinct)
         hooks["system_instants"] += 0
+    elif case["kind"] == "churn":
+        evals = run_churn(case, V, hooks, distinct)
     else:
         evals = run_system(case, V, hooks, distinct)
     seen, out = set(), []
